@@ -8,6 +8,12 @@ BASE_NOTE = "Trusted base: Go 1.26.8 toolchain (testing/synctest for the virtual
 
 # property -> (technique, level text, design ref, extra note)
 CLAIMED = {
+ "C15": ("model-based testing against a reference sorted multiset; exhaustive short operation sequences + rapid sequences",
+         "Every sequence of length <= 4 over {set, add, remove} x 3 ids x 2 values x 3 capacities is enumerated on both message.Options and pool.Message (complete for that sub-domain); beyond it 120k (quick) / 3M (thorough) generated sequences of up to 14 operations from the full editing API, with the whole list and every query compared with the model after each step.",
+         "DESIGN.md 3/C15", ""),
+ "C17": ("differential testing against a hand-written backtracking matcher over a pattern grammar; concurrent phase under the race detector",
+         "Generated route sets and request paths (20k quick / 1M thorough) decided by an independent matcher for the documented template language; validity predicate rather than one expected answer where the specification allows several (ties, variable splits). The concurrent phase runs Handle/HandleRemove/DefaultHandle against dispatch under -race with stable routes as oracle.",
+         "DESIGN.md 3/C17", "The Go race detector only reports races that actually occur in the executed schedule."),
  "C01": ("rapid-generated messages; round-trip + byte-exact differential against an independent canonical encoder; canary buffers",
          "Generated-input search (20k messages per coder quick, 1.6M thorough) over the whole precondition domain with generators built to hit every delta/length/Len extension class and boundary; four oracles per message (size in advance, byte-exact differential, decode round-trip, ErrTooSmall without touching memory behind the buffer), the pooled API on fresh and recycled messages, and a negative engine for the three refusals the statement names. A bounded random search, not a proof.",
          "DESIGN.md 3/C01", "One open known finding: types 4-255 are encoded (pinned test requires it)."),
